@@ -3,6 +3,7 @@
 // returned or the thrown error, and per JSON document the validator's verdicts and the reference's;
 // py/post_schema.py (python jsonschema, Draft 2020-12) supplies the schema's verdicts and judges.
 import fs from "node:fs";
+import { isRecursiveParser } from "../lib/rtdiff.mjs";
 import { corpus, programItems, valuesFor, kindsHistogram, h8 } from "../lib/corpus.mjs";
 import * as A from "../gen/ast.mjs";
 import { rt, STRING_FORMATS, NUMBER_FORMATS } from "../lib/loader.mjs";
@@ -138,7 +139,9 @@ export async function run(ctx) {
       if (expectThrow !== [...kinds].some((k) => UNPRINTABLE.has(k))) ctx.count("emitted_kinds_differ_from_reference");
       // (formats are read off the emitted runtypes as well: a type operator may have taken another branch than the reference)
       const usesFormats = kinds.has("fmt") || emitted.has("StringWithFormatRuntype") || emitted.has("NumberWithFormatRuntype");
-      const recursive = kinds.has("recursive");
+      // (recursion is read off the emitted validator as well: a type operator may have taken another
+      // branch than the reference - C01's subject - and flat schema() is specified for non-recursive types)
+      const recursive = kinds.has("recursive") || isRecursiveParser(parser);
       const modes = [{ mode: "flat" }, ...CONFIGS.map((cfg, i) => ({ mode: "contextual", cfg, ci: i }))];
       // JSON documents from the type (members, mutants) — shared by all modes
       const fromType = valuesFor(item, core, { members: 10, mutantsPer: 3, hostile: false }).map((x) => x.v).filter((v) => isJsonValue(v));
